@@ -3,8 +3,10 @@ package c08
 import (
 	"bytes"
 	"fmt"
+	"github.com/google/pprof/internal/plugin"
 	"os"
 	"path/filepath"
+	"regexp"
 	"strings"
 	"sync"
 	"testing"
@@ -493,4 +495,123 @@ func sourceDir() string {
 		}
 	})
 	return dir
+}
+
+// ---- facet disasm: assembly listings (command line and web UI) with an object tool supplied by the harness ----
+
+type disCase struct {
+	NSym    int
+	Samples [][]int // stacks of symbol indexes, leaf first
+	Vals    []int64
+	Web     bool
+}
+
+func genDis(t *rapid.T) *disCase {
+	c := &disCase{NSym: rapid.IntRange(2, 5).Draw(t, "nsym"), Web: rapid.Bool().Draw(t, "web")}
+	n := rapid.IntRange(2, 7).Draw(t, "nsamples")
+	for i := 0; i < n; i++ {
+		depth := rapid.IntRange(1, 3).Draw(t, "depth")
+		var st []int
+		for j := 0; j < depth; j++ {
+			st = append(st, rapid.IntRange(0, c.NSym-1).Draw(t, "sym"))
+		}
+		c.Samples = append(c.Samples, st)
+		c.Vals = append(c.Vals, rapid.SampledFrom([]int64{1, 1, 2, 2, 3, 10, -1, -2}).Draw(t, "val"))
+	}
+	return c
+}
+
+type disObj struct{ n int }
+
+type disFile struct{ n int }
+
+func (o disObj) Open(file string, start, limit, offset uint64, rs string) (plugin.ObjFile, error) {
+	return disFile{o.n}, nil
+}
+
+func (o disObj) Disasm(file string, start, end uint64, intel bool) ([]plugin.Inst, error) {
+	var out []plugin.Inst
+	for a := start; a < end; a += 4 {
+		i := int((a - 0x400000) / 0x100)
+		out = append(out, plugin.Inst{Addr: a, Text: fmt.Sprintf("insn %d", (a%0x100)/4), Function: fmt.Sprintf("sym%d", i), File: "s.go", Line: int((a%0x100)/4) + 1})
+	}
+	return out, nil
+}
+
+func (f disFile) Name() string                              { return "/bin/app" }
+func (f disFile) ObjAddr(a uint64) (uint64, error)          { return a, nil }
+func (f disFile) BuildID() string                           { return "" }
+func (f disFile) SourceLine(uint64) ([]plugin.Frame, error) { return nil, nil }
+func (f disFile) Close() error                              { return nil }
+func (f disFile) Symbols(r *regexp.Regexp, addr uint64) ([]*plugin.Sym, error) {
+	var out []*plugin.Sym
+	for i := 0; i < f.n; i++ {
+		name := fmt.Sprintf("sym%d", i)
+		start := uint64(0x400000 + i*0x100)
+		if (r == nil || r.MatchString(name)) && (addr == 0 || (addr >= start && addr < start+0x20)) {
+			out = append(out, &plugin.Sym{Name: []string{name}, File: "/bin/app", Start: start, End: start + 0x1f})
+		}
+	}
+	return out, nil
+}
+
+func checkDis(c *disCase, o *vk.Obs) []string {
+	var e vk.Errs
+	m := &profile.Mapping{ID: 1, Start: 0x400000, Limit: 0x500000, File: "/bin/app"}
+	p := &profile.Profile{SampleType: []*profile.ValueType{{Type: "samples", Unit: "count"}}, PeriodType: &profile.ValueType{Type: "cpu", Unit: "nanoseconds"}, Period: 1, Mapping: []*profile.Mapping{m}}
+	for i := 0; i < c.NSym; i++ {
+		f := &profile.Function{ID: uint64(i + 1), Name: fmt.Sprintf("sym%d", i), SystemName: fmt.Sprintf("sym%d", i), Filename: "s.go"}
+		l := &profile.Location{ID: uint64(i + 1), Mapping: m, Address: uint64(0x400000 + i*0x100 + 8), Line: []profile.Line{{Function: f, Line: 3}}}
+		p.Function = append(p.Function, f)
+		p.Location = append(p.Location, l)
+	}
+	for i, st := range c.Samples {
+		s := &profile.Sample{Value: []int64{c.Vals[i]}}
+		for _, k := range st {
+			s.Location = append(s.Location, p.Location[k])
+		}
+		p.Sample = append(p.Sample, s)
+	}
+	o.NonTrivial = true
+	obj := disObj{c.NSym}
+	var first string
+	for k := 0; k < K; k++ {
+		var out string
+		if c.Web {
+			w, err := pp.StartWeb(pp.Req{Args: []string{"src"}, Sources: map[string]*pp.Source{"src": {Prof: p}}, Obj: obj})
+			if err != nil {
+				return nil
+			}
+			code, body, _, pan := w.Get("/disasm?f=sym")
+			w.Close()
+			if pan != "" {
+				return []string{"/disasm panicked: " + pan}
+			}
+			out = fmt.Sprint(code) + "\n" + body
+		} else {
+			res := pp.Run(pp.Req{Flags: map[string]string{"disasm": "sym", "output": "out"}, Args: []string{"src"}, Sources: map[string]*pp.Source{"src": {Prof: p}}, Obj: obj})
+			if res.Panic != "" {
+				return []string{"pprof -disasm panicked: " + res.Panic}
+			}
+			out = res.Out("out")
+			if res.Err != nil {
+				out += "\nerror: " + res.Err.Error()
+			}
+		}
+		if k == 0 {
+			first = out
+			o.LabelIf(strings.Contains(out, "insn"), "listing-produced")
+			continue
+		}
+		if out != first {
+			e.Addf("the assembly listing (%s) differs between run 0 and run %d of the same request on the same profile:\n%s", map[bool]string{true: "web /disasm", false: "-disasm"}[c.Web], k, firstDiff(first, out))
+			break
+		}
+	}
+	return e
+}
+
+func TestPropDisasm(t *testing.T) {
+	vk.Main(t, vk.Spec[disCase]{ID: "C08", Facet: "disasm", Quick: 400, Thorough: 3000, Gen: genDis, Check: checkDis, Journal: true,
+		Rule: "profiles over 2..5 symbols of one binary with small values of either sign (ties in flat and cum, entries ranked differently by flat and by cum), assembly listing through the command line (-disasm) and through the web UI (/disasm, which orders the symbols by weight) with an object tool supplied by the harness, 6 repetitions; oracle: byte-identical output; every case is non-trivial"})
 }
